@@ -910,6 +910,52 @@ static void check_extract(Ctx &c, const std::basic_string<C> &content)
     if (any_token && (any_invalid || content.size() >= 3)) c.nontrivial();
 }
 
+// the same with std::noskipws and ONE target object re-used for every step: when the stream was good but the next character is
+// white space (or nothing is left), both extractions store the empty token - a target that keeps an earlier token is wrong
+template <class C>
+static void check_extract_noskipws(Ctx &c, const std::basic_string<C> &content)
+{
+    std::basic_istringstream<C> is_std(content), is_st(content);
+    is_std >> std::noskipws;
+    is_st >> std::noskipws;
+    std::basic_string<C> tok;
+    ST::string target;
+    for (int step = 0; step < 6; ++step) {
+        bool was_good = is_std.good() && is_st.good();
+        bool threw = false;
+        try {
+            is_std >> tok;
+        } catch (const std::exception &) {
+            threw = true;
+        }
+        vf::Outcome o = vf::guard([&] { is_st >> target; });
+        VF_COUNT("ops");
+        VF_COUNT("validated");
+        if (!was_good || threw) break;
+        std::string want8;
+        bool valid = token_valid<C>(tok, want8);
+        if (!valid) break;  // invalid tokens are the other stage's matter
+        if (!o.ok()) {
+            fail(c, strf("istream<%s>>>string(noskipws, reused target):throws-%s", cname<C>(), vf::outkind_name(o.kind)), o.str());
+            break;
+        }
+        if (std::string(target.c_str(), target.size()) != want8)
+            fail(c, strf("istream<%s>>>string(noskipws, reused target):token-differs:%s", cname<C>(), tok.empty() ? "empty-token" : "token"),
+                 strf("step %d: std::basic_string holds [%s], the ST::string holds %s", step, vf::hex_units(tok.data(), tok.size(), 24).c_str(),
+                      vf::vis(std::string(target.c_str(), target.size())).c_str()));
+        if ((int)is_std.rdstate() != (int)is_st.rdstate())
+            fail(c, strf("istream<%s>>>string(noskipws, reused target):stream-state-differs", cname<C>()), strf("rdstate %d vs %d", (int)is_std.rdstate(), (int)is_st.rdstate()));
+        if (is_std.fail()) {
+            // skip one character on both streams and go on (field-by-field reading)
+            is_std.clear();
+            is_st.clear();
+            is_std.get();
+            is_st.get();
+        }
+    }
+    if (content.size() >= 2) c.nontrivial();
+}
+
 static const unsigned char E8[] = {' ', '\n', 'a', 0xC3, 0xA9, 0xE2, 0xFF, 0x00};
 static const uint32_t EW[] = {' ', '\n', 'a', 0xE9, 0x20AC, 0x1F600, 0x110000, 0};
 static const uint16_t E16[] = {' ', 'a', 0xE9, 0xD83D, 0xDE00};
@@ -1141,13 +1187,13 @@ static void build(vf::Plan &plan, const vf::Opts &o)
     {
         const unsigned L8 = th ? 7 : 6, LW = th ? 6 : 5, L16 = th ? 6 : 4;
         plan.stage(strf("extract<char>:{' ','\\n',a,C3,A9,E2,FF,NUL}^<=%u", L8), vf::seq_count(8, L8),
-                   [L8](uint64_t i, Ctx &c) { check_extract<char>(c, seq_units<char>(i, E8, 8, L8)); },
+                   [L8](uint64_t i, Ctx &c) { check_extract<char>(c, seq_units<char>(i, E8, 8, L8)); check_extract_noskipws<char>(c, seq_units<char>(i, E8, 8, L8)); },
                    [L8](uint64_t i) {
                        std::string s = seq_units<char>(i, E8, 8, L8);
                        return strf("stream contents %s", vf::vis(s).c_str());
                    });
         plan.stage(strf("extract<wchar_t>:{' ','\\n',a,E9,20AC,1F600,110000,NUL}^<=%u", LW), vf::seq_count(8, LW),
-                   [LW](uint64_t i, Ctx &c) { check_extract<wchar_t>(c, seq_units<wchar_t>(i, EW, 8, LW)); },
+                   [LW](uint64_t i, Ctx &c) { check_extract<wchar_t>(c, seq_units<wchar_t>(i, EW, 8, LW)); check_extract_noskipws<wchar_t>(c, seq_units<wchar_t>(i, EW, 8, LW)); },
                    [LW](uint64_t i) {
                        std::wstring s = seq_units<wchar_t>(i, EW, 8, LW);
                        return strf("stream contents [%s]", vf::hex_units(s.data(), s.size(), 16).c_str());
